@@ -14,6 +14,7 @@ from ..astutil import U, assignments, calls, callee_name, const_str, own_walk, r
 from ..kernelir import IndexSet, KInterp, PyVal, Unsupported
 from ..pathcond import parents, path_condition
 from ..source import AnalysisError
+from ..segments import canonical_bsm
 
 DC = "pandapipes.pf.derivative_calculation"
 RE = "pandapipes.pf.result_extraction"
@@ -231,7 +232,7 @@ def _backward_slice_names(fnode, seeds):
 
 def r7_3(run):
     ix = run.index
-    f = ix.func(BSM + ".build_system_matrix")
+    f = canonical_bsm(ix)
     run.analysed(f)
     mi = ix.module(BSM)
     par = parents(f.node)
